@@ -171,3 +171,17 @@ def fx_state(fx):
     for nm in ("ok_push", "bad_push"):
         refusal.state_refusal(c, Fn(fx.raw("state::Ring::" + nm)), "R-GUARD.state", "push")
     return _fires(c, "Ring::bad_push") and not _fires(c, "Ring::ok_push")
+
+
+def fx_tasks(fx):
+    from rules import linear, order
+    c = _ctx()
+    for nm in ("bad_balance", "ok_balance"):
+        linear.linear(c, Fn(fx.raw("tasks::Q::" + nm)), "dyn tasks::Job", follow=True)
+    c2 = _ctx()
+    linear.refusing_sinks(c2, fx, "src/lib.rs", "dyn tasks::Job")
+    c3 = _ctx()
+    order.sequence_order(c3, fx, ["src/lib.rs"])
+    return (_fires(c, "Q::bad_balance") and not _fires(c, "Q::ok_balance")
+            and _fires(c2, "Q::bad_refill") and not _fires(c2, "Q::ok_refill")
+            and _fires(c3, "tasks::bad_map") and not _fires(c3, "tasks::ok_map"))
